@@ -99,35 +99,36 @@ type Choice struct {
 
 // Options of one run. Everything random in the scheduler derives from Seed.
 type Options struct {
-	Seed       uint64
-	PreemptNum int      // preempt with probability PreemptNum/PreemptDen when the current task could continue
-	PreemptDen int      //   (0/0 => always pick uniformly)
-	MaxFree    int      // upper bound of free bytecode steps granted per release (0 => none)
-	Replay     []Choice // if non-nil, follow this instead of the PRNG
-	MaxSteps   int      // cap on scheduling decisions (0 => 2,000,000)
-	Tick       time.Duration // fake-clock advance per scheduling decision (0 = time stands still while tasks run)
-	Horizon    time.Duration
-	BiasSites  []string                   // after a yield at one of these sites, always preempt (if another task is runnable)
-	KeepLog    bool                       // keep the textual event log (samples / replays)
-	OnSwitch   func(fromNode, toNode int) // called by the released task, before it continues, when the previous task belonged to another node
+	Seed        uint64
+	PreemptNum  int           // preempt with probability PreemptNum/PreemptDen when the current task could continue
+	PreemptDen  int           //   (0/0 => always pick uniformly)
+	MaxFree     int           // upper bound of free bytecode steps granted per release (0 => none)
+	Replay      []Choice      // if non-nil, follow this instead of the PRNG
+	MaxSteps    int           // cap on scheduling decisions (0 => 2,000,000)
+	Tick        time.Duration // fake-clock advance per scheduling decision (0 = time stands still while tasks run)
+	Horizon     time.Duration
+	BiasSites   []string                   // after a yield at one of these sites, always preempt (if another task is runnable)
+	KeepLog     bool                       // keep the textual event log (samples / replays)
+	UnlockYield bool                       // every Unlock/RUnlock of a shim mutex is followed by a scheduling point (a goroutine can be descheduled right after releasing a lock)
+	OnSwitch    func(fromNode, toNode int) // called by the released task, before it continues, when the previous task belonged to another node
 }
 
 // Result of one run.
 type Result struct {
-	Steps       int      // scheduling decisions
-	Choices     []Choice // decisions where a real choice existed
-	Hash        uint64   // hash of the full decision sequence (interleaving id)
-	MaxRunnable int
-	Switches    int // decisions that released a different task than the previous one
-	Tasks       int
-	Deadlock    string // non-empty: description of the stuck state
-	Fatal       string // non-empty: a task hit a Go "fatal error" condition (message + stack); the run stopped there
-	StepCap     bool
-	Log         []string
-	SimTime     time.Duration
-	Leftover    int            // tasks still parked at the end
-	LeftoverTasks []string     // "<id> created at <site> state <state>" for each of them
-	Sites       map[string]int // releases per yield kind/site
+	Steps         int      // scheduling decisions
+	Choices       []Choice // decisions where a real choice existed
+	Hash          uint64   // hash of the full decision sequence (interleaving id)
+	MaxRunnable   int
+	Switches      int // decisions that released a different task than the previous one
+	Tasks         int
+	Deadlock      string // non-empty: description of the stuck state
+	Fatal         string // non-empty: a task hit a Go "fatal error" condition (message + stack); the run stopped there
+	StepCap       bool
+	Log           []string
+	SimTime       time.Duration
+	Leftover      int            // tasks still parked at the end
+	LeftoverTasks []string       // "<id> created at <site> state <state>" for each of them
+	Sites         map[string]int // releases per yield kind/site
 }
 
 // Sched is the scheduler of one run.
@@ -326,6 +327,22 @@ func Yield(site string) {
 	}
 	if l := me(); l != nil {
 		l.yield(KYield, site)
+	}
+}
+
+// AfterUnlock is called by the sync shim after a mutex was released: with Options.UnlockYield it
+// is a scheduling point.
+//
+//go:norace
+func AfterUnlock() {
+	if active.Load() == nil {
+		return
+	}
+	raceDisable()
+	progress.Add(1)
+	raceEnable()
+	if l := me(); l != nil && l.s.opt.UnlockYield {
+		l.yield(KYield, "unlock")
 	}
 }
 
